@@ -86,4 +86,39 @@ def c05(tier):
         RECV_FUNCS, pre=utf8.closure)
 
 
-PROPS = {'C05': c05, 'C01': c01, 'C04': c04, 'C14': c14}
+def seg_spec(name, **P):
+    P = dict(P)
+    P.setdefault('N', 0)
+    P.setdefault('tags', ['C02'])
+    return Spec(name, 'checks.seg', 'run_seg', P,
+                what='same symbolic stream (%s) run in one read and again cut by mode=%s (cut positions are solver '
+                     'variables); events, payload terms, written bytes and write/event interleaving proved equal'
+                     % ('family %r' % P['family'] if P.get('family') else '%d symbolic bytes%s' % (
+                         P['N'], ' after a %d-byte frame' % P['big_prefix'] if P.get('big_prefix') else ''), P['mode']))
+
+
+def c02(tier):
+    if tier == 'quick':
+        specs = [seg_spec('allcuts-N4', N=4, mode='frames-allcuts'),
+                 seg_spec('bytewise-N5', N=5, mode='bytewise-frames'),
+                 seg_spec('hs-joined-N3', N=3, mode='hs-joined-bytewise'),
+                 seg_spec('one-cut-anywhere-N3', N=3, mode='one-cut-anywhere', hs_window=8),
+                 seg_spec('bytewise-all-N2', N=2, mode='bytewise-all'),
+                 seg_spec('burst-after-hs', N=2, mode='after-hs', big_prefix=16400),
+                 seg_spec('frag-text-L3-allcuts', family=dict(opcode=1, L=3, max_frags=2), mode='frames-allcuts')]
+    else:
+        specs = [seg_spec('allcuts-N5', N=5, mode='frames-allcuts'),
+                 seg_spec('two-cuts-N6', N=6, mode='two-cuts', hs_window=4),
+                 seg_spec('bytewise-N7', N=7, mode='bytewise-frames'),
+                 seg_spec('hs-joined-N5', N=5, mode='hs-joined-bytewise'),
+                 seg_spec('one-cut-anywhere-N4', N=4, mode='one-cut-anywhere', hs_window=200),
+                 seg_spec('bytewise-all-N3', N=3, mode='bytewise-all'),
+                 seg_spec('burst-after-hs', N=3, mode='after-hs', big_prefix=16400),
+                 seg_spec('burst-after-hs-64k', N=2, mode='after-hs', big_prefix=65400),
+                 seg_spec('frag-text-L4-allcuts', family=dict(opcode=1, L=4, max_frags=3), mode='frames-allcuts')]
+    return run_property('C02', tier, specs, 'model_checking', 'independence from TCP segmentation',
+                        ENV_ASSUMPTIONS + ['reference segmentation = whole stream in one read (lemma mode: p|d1+d2)',
+                                           'compressed streams: see C06 (zlib abstracted)'], RECV_FUNCS)
+
+
+PROPS = {'C02': c02, 'C05': c05, 'C01': c01, 'C04': c04, 'C14': c14}
